@@ -265,7 +265,9 @@ pub fn drive(ctx: &Ctx) -> Summary {
     let alphabet = Alphabet {
         literals: c03::LITERALS,
         vars: &["x", "y", "theta"],
-        addrs: &[("m", 0), ("m", 1), ("n", 1), ("ro", 2), ("ro", 0)],
+        // two regions are named like reserved words of the expression grammar (no text is involved in C13,
+        // the listing and the lookup must simply not care)
+        addrs: &[("m", 0), ("m", 1), ("n", 1), ("ro", 2), ("ro", 0), ("exp", 1), ("pi", 0)],
         ops: c03::OPS,
         fns: c03::FUNCTIONS,
         pi: true,
@@ -309,7 +311,7 @@ pub fn drive(ctx: &Ctx) -> Summary {
             let sd: Vec<String> = universe.iter().filter(|_| rng.gen_bool(0.45)).cloned().collect();
             let vd: Vec<String> = universe.iter().filter(|_| rng.gen_bool(0.6)).cloned().collect();
             let mut shape = BTreeMap::new();
-            for r in ["m", "n", "ro"] {
+            for r in ["m", "n", "ro", "exp", "pi"] {
                 if rng.gen_bool(0.8) {
                     shape.insert(r.to_string(), rng.gen_range(0..=3usize));
                 }
